@@ -20,7 +20,7 @@ RULE = ("random DAGs (<= 7 providers, depth <= 4, fan-out <= 3, shared sub-depen
         "fingerprint = canonical DAG + overrides + failure + converter; trivial = graphs without any edge")
 ASSUMPTIONS = ["in-memory broker; virtual time; sync providers run through an inline executor (the asyncify wrapper is kept)"]
 EVAL_COUNTER = "invocations_judged"
-REQUIRED = ["invocations_judged", "process_pool_provider_runs", "providers_with_defaulted_dependencies", "graphs_with_shared_subdeps", "overrides_applied", "provider_failures", "declaration_rejections", "msg_leaves", "concurrent_twins", "fresh_executions", "same_function_depends_runs", "shadowing_payload_jobs", "exception_valued_providers"]
+REQUIRED = ["invocations_judged", "process_pool_provider_runs", "providers_with_defaulted_dependencies", "graphs_with_shared_subdeps", "overrides_applied", "provider_failures", "declaration_rejections", "msg_leaves", "concurrent_twins", "fresh_executions", "same_function_depends_runs", "shadowing_payload_jobs", "exception_valued_providers", "providers_returning_an_awaitable_value"]
 CASE_TIMEOUT = 120
 
 
@@ -37,6 +37,7 @@ def gen_cases(tier, seed):
         cases.append({"type": "fresh", "seed": rnd.randrange(10**6), "keep": i % 2 == 0, "via_retry": (i // 2) % 2 == 0, "fails": 1 + i % 3, "recurring": i % 4 == 3})
     # real processes, real time: a provider declared with run_in_process=True, then overridden by an ordinary closure
     cases.append({"type": "inproc", "seed": 1})
+    cases.append({"type": "awaitable", "seed": 1})
     return cases
 
 
@@ -54,6 +55,47 @@ def gen_graph(rnd):
         nodes.append({"name": f"d{i}", "subs": subs, "async": rnd.random() < 0.5, "msg": rnd.random() < 0.25, "plain": rnd.choice([None, None, 7]),
                       "dep_defaults": rnd.random() < 0.3})
     return nodes
+
+
+def awaitable_case(case, out, stats, fps):
+    """Stock event loop (sync providers really run in the thread pool): a provider's return value that happens to be awaitable
+    is still just the value."""
+    from repid import Connection, Job, Router, Worker
+    from repid.connections import InMemoryMessageBroker
+    from repid.converter import BasicConverter, DefaultConverter
+    from repid.router import RouterDefaults
+    from rv.actors import LazyHandle, register_awaitable_value_actors
+    from rv.sim.loop import wall_passthrough
+
+    wall_passthrough()
+    for conv in (BasicConverter, DefaultConverter):
+        received, made = {}, {}
+
+        async def main():
+            conn = Connection(InMemoryMessageBroker())
+            await conn.connect()
+            r = Router(defaults=RouterDefaults(converter=conv))
+            names = register_awaitable_value_actors(r, received, made)
+            await conn.message_broker.queue_declare("default")
+            for n_ in names:
+                await Job(n_, id_=n_, store_result=False, _connection=conn).enqueue()
+            await asyncio.wait_for(Worker(routers=[r], messages_limit=len(names), tasks_limit=1, handle_signals=[], _connection=conn).run(), 60)
+            await conn.disconnect()
+
+        asyncio.run(main())
+        stats["invocations_judged"] += 3
+        stats["providers_returning_an_awaitable_value"] += 3
+        fps.add(f"awaitable/{conv.__name__}")
+        ctx = f"awaitable-value/{conv.__name__}"
+        for which, want in (("direct", made.get("direct")), ("override", made.get("override"))):
+            got = received.get(which, "<actor never ran>")
+            if got is not want or not isinstance(got, LazyHandle) or got.awaited:
+                out.append(V("value_mismatch", ctx, f"{which}: a synchronous provider returned a LazyHandle (an awaitable object); the actor received {got!r}"
+                                                    f"{' - the handle was awaited ' + str(want.awaited) + ' time(s) on the way' if isinstance(want, LazyHandle) and want.awaited else ''}"))
+        got = received.get("nested", "<actor never ran>")
+        child = made.get("child")
+        if not (isinstance(got, tuple) and len(got) == 2 and got[0] == "parent" and got[1] is child and made.get("parent_saw") is child and not child.awaited):
+            out.append(V("value_mismatch", ctx, f"nested: the parent provider's sub-dependency returned a LazyHandle; the parent saw {made.get('parent_saw')!r}, the actor received {got!r}"))
 
 
 def inproc_case(case, out, stats, fps):
@@ -441,6 +483,11 @@ def run_case(case):
     out, fps, samples = [], set(), []
     if case["type"] == "declarations":
         declarations(out, stats, fps)
+    elif case["type"] == "awaitable":
+        try:
+            awaitable_case(case, out, stats, fps)
+        except Exception as exc:  # noqa: BLE001
+            out.append(V("harness_or_api_error", "awaitable", f"{type(exc).__name__}: {exc}"))
     elif case["type"] == "inproc":
         try:
             inproc_case(case, out, stats, fps)
